@@ -1,12 +1,12 @@
 """usage: tools/seedprompts.py OUTDIR [ID ...]  -- write one sub-agent prompt per property for the next seeded round, from the round-3
-prompt template in /tmp/seedprompts3 (rebuildable from properties.jsonl) and the summaries of all earlier changes under seeded/"""
+prompt template in tools/seedprompt_templates and the summaries of all earlier changes under seeded/"""
 import json, os, re, sys
 out = sys.argv[1]; os.makedirs(out, exist_ok=True)
 ids = sys.argv[2:] or ['C01','C02','C03','C04','C05','C06','C07','C08','C10','C11','C13','C14','C15','C16','C17','C18','C19','C20']
 for pid in ids:
     rs = [int(x.rsplit('-r', 1)[1]) for x in os.listdir('/verif/seeded') if x.startswith(pid + '-r')]
     lr = max(rs); new = lr + 1
-    s3 = open('/tmp/seedprompts3/%s.txt' % pid).read()
+    s3 = open('/verif/tools/seedprompt_templates/%s.txt' % pid).read()
     sums = [json.load(open('/verif/seeded/%s/meta.json' % pid)).get('summary') or '']
     for r in range(2, lr + 1):
         p = '/verif/seeded/%s-r%d/meta.json' % (pid, r)
